@@ -216,6 +216,18 @@ func H_C21_query_teardown_releases_everything() { vpQueryTeardownBody(false) }
 //vp:bounds the real Query with all its goroutines and the real processDataBlock / evaluateBlockFilters / fileHandlePool, MaxQueryConcurrency 1, 1 file x 1 one-row block, verdicts arbitrary, OpenFile / row-data read / materialize fail or succeed arbitrarily, MetaStore iterator failing at its last position or not; the consumer drains, or cancels / closes after 0..1 rows; a canceller goroutine may run at any point; at most 1 forced context switch in addition to switches at blocking points
 func H_C21_query_teardown_with_forced_switches() { vpQueryTeardownBody(true) }
 
+//vp:override (*bs.BloomSearchEngine).evaluateBloomFilters=vpQueryVerdictStub
+//vp:override (*bs.blockFilterCursor).filtersFor=vpQueryFiltersFor
+//vp:override (*bs.blockFilterCursor).release=vpCursorReleaseNop
+//vp:override bs.readPooledBlockRowData=vpReadRowDataStub
+//vp:override (*bs.compiledRowMatcher).matchRowBytes=vpMatchStub
+//vp:override bs.materializeRow=vpMaterializeStub
+//vp:preempt 2
+//vp:thorough
+//vp:maxpaths 2000000
+//vp:bounds the real Query with all its goroutines and the real processDataBlock / evaluateBlockFilters / fileHandlePool, MaxQueryConcurrency 1, 1 file x 1 one-row block, verdicts arbitrary, OpenFile / row-data read / materialize fail or succeed arbitrarily, MetaStore iterator failing at its last position or not; the consumer drains, or cancels / closes after 0..1 rows; a canceller goroutine may run at any point; at most 2 forced context switches in addition to switches at blocking points
+func H_C21_query_teardown_with_two_forced_switches() { vpQueryTeardownBody(true) }
+
 var vpReadCloseMayFail bool // set by a harness before vpQueryTeardownBody: read handles may fail to close
 
 func vpQueryTeardownBody(small bool) {
